@@ -187,7 +187,7 @@ func genOpts(rng *rand.Rand, tier string, mode string) sim.Opts {
 		}
 	}
 	// runs with static membership are also replayed through the abstract protocol Spec/Raft.lean
-	o.SpecCheck = !o.ConfChanges
+	o.SpecCheck = !o.ConfChanges && rng.Intn(4) != 0
 	return o
 }
 
